@@ -4,6 +4,7 @@ package main
 
 import (
 	"go/token"
+	"go/types"
 
 	"golang.org/x/tools/go/ssa"
 )
@@ -76,9 +77,10 @@ func c08Rules(c *Ctx) {
 	}
 	if fn := c.NeedFn(rule, "stickyBalanceStrategy.reassignPartitionToNewConsumer"); fn != nil {
 		fi := Info(fn)
-		cs := fi.Find(p.CallTo("stickyBalanceStrategy.reassignPartition"))
+		// the move itself: through reassignPartition, or directly through processPartitionMovement
+		cs := append(fi.Find(p.CallTo("stickyBalanceStrategy.reassignPartition")), fi.Find(p.CallTo("stickyBalanceStrategy.processPartitionMovement"))...)
 		if len(cs) == 0 {
-			c.Unresolved(rule, "reassignPartition call")
+			c.Unresolved(rule, "reassignPartition / processPartitionMovement call in reassignPartitionToNewConsumer")
 		}
 		for _, s := range cs {
 			l := fi.InnermostLoop(itemBlock(s))
@@ -118,13 +120,27 @@ func c08Rules(c *Ctx) {
 		} else {
 			l := fi.InnermostLoop(itemBlock(keepAppend))
 			reg := fi.Iteration(l)
+			// "the partition still exists": a comma-ok lookup of the remembered partition itself (the element of
+			// the member's remembered list) in a map keyed by topic-partition — a lookup of its topic alone lets a
+			// partition of a shrunken topic survive
 			exists := func(v ssa.Value) bool {
 				ex, ok := v.(*ssa.Extract)
 				if !ok || ex.Index != 1 {
 					return false
 				}
-				_, isL := ex.Tuple.(*ssa.Lookup)
-				return isL
+				lk, isL := ex.Tuple.(*ssa.Lookup)
+				if !isL {
+					return false
+				}
+				mt, isM := lk.X.Type().Underlying().(*types.Map)
+				if !isM {
+					return false
+				}
+				if n, _ := NamedOf(mt.Key()); n != "topicPartitionAssignment" {
+					return false
+				}
+				_, _, isElem := rangeElem(fi, lk.Index)
+				return isElem
 			}
 			g2, path := reg.Guarded(keepAppend, Truth{exists, true})
 			// the subscription tested is the owner's and the partition's topic
